@@ -36,6 +36,15 @@ namespace Box
 /-- geom.go `size` -/
 def size (r : Box) : Rat := (r.maxX - r.minX) * (r.maxY - r.minY)
 
+/-- geom.go `margin` -/
+def margin (r : Box) : Rat := 2 * ((r.maxX - r.minX) + (r.maxY - r.minY))
+
+/-- geom.go `containsPoint` -/
+def containsPoint (r : Box) (px py : Rat) : Bool :=
+  if px < r.minX || px > r.maxX then false
+  else if py < r.minY || py > r.maxY then false
+  else true
+
 /-- geom.go `enlarge` (returns the updated `r1`) -/
 def enlarge (r1 r2 : Box) : Box :=
   { minX := if r1.minX > r2.minX then r2.minX else r1.minX
@@ -345,17 +354,13 @@ def goChooseEntry (bs : List Box) (e : Box) : Nat :=
         else go rest (i + 1) (some (diff, csize, ci))
   go bs 0 none
 
-/-- pickSeeds -/
+/-- pickSeeds: the two nested `range` loops (`for i, e1 := range es { for j, e2 := range es[i+1:] {` …)
+threading (maxWastedSpace, left, right) -/
 def goPickSeeds (bs : List Box) : Nat × Nat :=
-  let n := bs.length
-  let pairs := (List.range n).flatMap fun i => ((List.range n).filter (i < ·)).map fun j => (i, j)
-  let step (acc : Rat × Nat × Nat) (p : Nat × Nat) : Rat × Nat × Nat :=
-    match bs[p.1]?, bs[p.2]? with
-    | some b1, some b2 =>
-      let d := (b1.union b2).size - b1.size - b2.size
-      if d > acc.1 then (d, p.1, p.2) else acc
-    | _, _ => acc
-  let r := pairs.foldl step ((-1 : Rat), 0, 1)
+  let r := bs.zipIdx.foldl (fun (acc : Rat × Nat × Nat) (e1i : Box × Nat) =>
+      (bs.drop (e1i.2 + 1)).zipIdx.foldl (fun (acc : Rat × Nat × Nat) (e2j : Box × Nat) =>
+        let d := (e1i.1.union e2j.1).size - e1i.1.size - e2j.1.size
+        if d > acc.1 then (d, e1i.2, e2j.2 + e1i.2 + 1) else acc) acc) ((-1 : Rat), 0, 1)
   (r.2.1, r.2.2)
 
 /-- pickNext -/
